@@ -17,6 +17,8 @@ REPO = os.environ.get("GENLM_REPO", "/repo")
 GUARD = "GENLM_GRAMMAR_VERIF"
 
 STD_AXIOMS = {"propext", "Classical.choice", "Quot.sound"}
+# theorems audited for a property besides `Genlm.Props.<prop>` (proved about GENERATED definitions)
+EXTRA_NS = {"C16": ["Genlm.SemiringLaws"], "C02": ["Genlm.Gen.Earley"], "C04": ["Genlm.Gen.EarleyRescaled"]}
 
 
 # ----------------------------------------------------------------------------- symbols
@@ -283,7 +285,7 @@ def build_and_audit(prop, log=None):
         res["ok"] = p.returncode == 0
         res["build_log"] = out[-6000:]
         if p.returncode == 0:
-            a = subprocess.run(["lake", "env", "lean", "--run", "Audit.lean", mod, f"Genlm.Props.{prop}"], cwd=LEAN,
+            a = subprocess.run(["lake", "env", "lean", "--run", "Audit.lean", mod, f"Genlm.Props.{prop}"] + EXTRA_NS.get(prop, []), cwd=LEAN,
                                stdout=subprocess.PIPE, stderr=subprocess.STDOUT, timeout=1800)
             txt = a.stdout.decode(errors="replace")
             for line in txt.splitlines():
